@@ -402,6 +402,18 @@ def r9(ctx):
         raise AnchorError("stop-reason translations: %d" % n)
 
 
+def r10(ctx):
+    """'IIN2 rejection ... yields the corresponding error': Iin::has_bad_request_error() looks at NO_FUNC_CODE_SUPPORT, OBJECT_UNKNOWN
+    and PARAMETER_ERROR through their getters; a getter that tests the wrong bit lets a rejected command report success. Bit positions
+    and getters are rule C13.R1 (shared code); here also: has_bad_request_error consults all three."""
+    import c13
+    c13.r1(ctx)
+    prog = ctx.prog
+    hb = prog.body("app::header::Iin::has_bad_request_error")
+    got = {c.term.callee.split("::")[-1] for c in hb.calls() if (c.term.callee or "").startswith("dnp3::app::header::Iin2::get_")}
+    want = {"get_no_func_code_support", "get_object_unknown", "get_parameter_error"}
+    ctx.check(want <= got, "has_bad_request_error:all-three", "has_bad_request_error consults %s" % sorted(got), hb.where(line=hb.line), bad_detail="has_bad_request_error consults only %s" % sorted(got))
+
 RULES = [
     ("C16.R1", "T2", "command success and SELECT->OPERATE only behind a parsed, faithful echo", r1),
     ("C16.R2", "T2", "echo comparison: status SUCCESS, index+value equality, exact object and header counts", r2),
@@ -412,4 +424,5 @@ RULES = [
     ("C16.R7", "T3", "every task handle/on_task_error completes or forwards its promise", r7),
     ("C16.R8", "T2-loop", "response deadlines are fixed before the wait loop", r8),
     ("C16.R9", "T4-namesake", "stop / task error translations build the namesake variant (Disabled -> Disable, Shutdown -> Shutdown)", r9),
+    ("C16.R10", "T11/T4", "the IIN2 rejection test sees every error bit (bit positions and getters, shared with C13.R1)", r10),
 ]
